@@ -77,8 +77,8 @@ class Project:
     def observe(self):
         files = {}
         contents = {}
-        for rel, (size, mt) in cluster.snapshot_tree(self.dir).items():
-            if rel in ("workflow.py", ".gwfconf.json"):
+        for rel, (size, mt) in cluster.snapshot_tree(self.dir, skip=()).items():
+            if rel in ("workflow.py", ".gwfconf.json") or (rel.startswith(".gwf/") and not rel.startswith(".gwf/logs/")):
                 continue
             files[os.path.join(self.dir, rel)] = mt
             with open(os.path.join(self.dir, rel), "rb") as f:
@@ -108,15 +108,18 @@ class Project:
         parts.append("Y")
         return " ".join(parts)
 
-    @staticmethod
-    def rank_files(files):
-        vals = sorted(set(files.values()))
-        rk = {v: i + 1 for i, v in enumerate(vals)}
-        return {p: rk[v] for p, v in files.items()}, len(vals)
+    def rank_files(self, files):
+        """dense ranks of the mtimes, spread out by a factor so that the model's touch/finish stamps
+        (clock+1, clock+2, …) fall strictly between the present and any future-dated file; the clock is
+        the rank of "now" (the harness' stamp counter)"""
+        now = self.stamp * 1_000_000_000
+        vals = sorted(set(files.values()) | {now})
+        rk = {v: (i + 1) * 100000 for i, v in enumerate(vals)}
+        return {p: rk[v] for p, v in files.items()}, rk[now]
 
     def enc_world(self, obs):
         ranked, clock = self.rank_files(obs["files"])
-        parts = ["W", hx(obs["dir"]), "1" if obs["hashing"] else "0", str(obs["next_id"]), str(clock),
+        parts = ["W", hx(obs["dir"]), "1" if obs["hashing"] else "0", self.backend, str(obs["next_id"]), str(clock),
                  mklist("%s=%d" % (hx(p), r) for p, r in sorted(ranked.items())),
                  mklist("%s=%s" % (hx(k), hx(str(v))) for k, v in sorted(obs["tracked"].items())),
                  mklist("%s=%s" % (hx(k), hx(v)) for k, v in sorted(obs["hashes"].items())),
@@ -274,7 +277,7 @@ def seed_cluster_history(proj, rng, p_tracked=0.5):
             st["next_id"] += 1
             state = rng.choice(["pending", "running", "completed", "failed", "cancelled", "gone"])
             if state != "gone":
-                st["jobs"][jid] = {"id": jid, "state": state, "deps": [], "kind": "afterok", "name": t["name"], "script": "",
+                st["jobs"][jid] = {"id": jid, "state": state, "deps": [], "kind": {"slurm": "afterok", "sge": "hold", "lsf": "done"}[proj.backend], "name": t["name"], "script": "",
                                    "argv": [], "code": None, "acct": None, "order": len(st["jobs"])}
             tracked[t["name"]] = jid
     st["foreign"] = [{"id": str(5000 + i), "code": rng.choice(["R", "PD", "qw", "r"])} for i in range(rng.randint(0, 2))]
@@ -331,8 +334,18 @@ def step_dry(proj, patterns=()):
             "pure": semantic_state(pre) == semantic_state(post), "calls": calls}
 
 
-def step_run(proj, patterns=()):
+SUBMIT_CMD = {"slurm": "sbatch", "sge": "qsub", "lsf": "bsub"}
+CANCEL_CMD = {"slurm": "scancel", "sge": "qdel", "lsf": "bkill"}
+
+
+def step_run(proj, patterns=(), reject_nth=None, backend_cmd=None):
+    """reject_nth: the n-th submission of this run is refused by the scheduler (non-zero exit)"""
     pre = proj.observe()
+    backend_cmd = backend_cmd or SUBMIT_CMD[proj.backend]
+
+    def add(st):
+        st["faults"] = [{"cmd": backend_cmd, "nth": st["calls"].get(backend_cmd, 0) + reject_nth, "kind": "exit1"}] if reject_nth else []
+    proj.cluster.update(add)
     proj.cluster.clear_log()
     code, out, err = proj.gwf(["run"] + list(patterns))
     log = proj.cluster.log()
@@ -341,10 +354,14 @@ def step_run(proj, patterns=()):
     for e in log:
         if e["cmd"] in ("sbatch", "qsub", "bsub"):
             m = re.search(r"(?:#SBATCH --job-name=|#\$ -N |#BSUB -J )(\S+)", e["stdin"])
-            subs.append({"name": m.group(1) if m else "?", "argv": e["argv"], "reply": e["reply"]})
-    line, _, _ = proj.model("run", pre, mklist(hx(p) for p in patterns))
-    files_same = (pre["files"] == post["files"] and pre["contents"] == post["contents"])
-    return {"same": semantic_state(pre) == semantic_state(post), "calls": [e["cmd"] for e in log], "kind": "run", "line": line, "patterns": list(patterns), "code": code, "subs": subs, "err": err[-400:],
+            if not e.get("fault"):
+                subs.append({"name": m.group(1) if m else "?", "argv": e["argv"], "reply": e["reply"]})
+    rejected = any(e.get("fault") for e in log)
+    line, _, _ = proj.model("run", pre, mklist(hx(p) for p in patterns), str(len(subs)) if rejected else "-")
+    def nolog(d):
+        return {k: v for k, v in d.items() if "/.gwf/" not in k}
+    files_same = (nolog(pre["files"]) == nolog(post["files"]) and nolog(pre["contents"]) == nolog(post["contents"]))
+    return {"rejected": rejected, "same": semantic_state(pre) == semantic_state(post), "calls": [e["cmd"] for e in log], "kind": "run", "line": line, "patterns": list(patterns), "code": code, "subs": subs, "err": err[-400:],
             "tracked": post["tracked"], "hashes": post["hashes"], "jobs": post["jobs"], "files_same": files_same,
             "pre_tracked": pre["tracked"]}
 
@@ -357,7 +374,18 @@ def step_touch(proj, patterns=()):
     line, ranked, clock = proj.model("touch", pre, mklist(hx(p) for p in patterns))
     return {"same": semantic_state(pre) == semantic_state(post), "calls": [], "kind": "touch", "line": line, "patterns": list(patterns), "code": code, "err": err[-400:], "calls": pt.calls,
             "pre_files": pre["files"], "post_files": post["files"], "pre_contents": pre["contents"], "post_contents": post["contents"],
-            "hashes": post["hashes"], "clock": clock, "tracked_same": pre["tracked"] == post["tracked"], "jobs_same": pre["jobs"] == post["jobs"]}
+            "hashes": post["hashes"], "clock": clock, "pre_ranks": ranked, "tracked_same": pre["tracked"] == post["tracked"], "jobs_same": pre["jobs"] == post["jobs"]}
+
+
+def step_touch_then_status(proj, patterns=()):
+    """C16's claim proper: after touch, status reports the cone completed (model: touch ; status from the pre-state)"""
+    pre = proj.observe()
+    with PatchedTouch(proj):
+        code, out, err = proj.gwf(["touch"] + list(patterns))
+    code2, out2, err2 = proj.gwf(["status"])
+    line, _, _ = proj.model("touchstatus", pre, mklist(hx(p) for p in patterns))
+    return {"kind": "touchstatus", "line": line, "patterns": list(patterns), "code": code or code2, "err": (err + err2)[-400:],
+            "out": ANSI.sub("", out2), "ids": proj.ids(), "same": True, "calls": []}
 
 
 def step_clean(proj, patterns=(), all_=False, force=True, answer=None):
@@ -375,10 +403,12 @@ def step_clean(proj, patterns=(), all_=False, force=True, answer=None):
 
 def step_cancel(proj, patterns=(), force=True, answer=None, fail_nth=None):
     pre = proj.observe()
-    if fail_nth:
-        def add(st):
-            st["faults"] = [{"cmd": "scancel", "nth": st["calls"].get("scancel", 0) + fail_nth, "kind": "exit1"}]
-        proj.cluster.update(add)
+
+    ccmd = CANCEL_CMD[proj.backend]
+
+    def add(st):
+        st["faults"] = [{"cmd": ccmd, "nth": st["calls"].get(ccmd, 0) + fail_nth, "kind": "exit1"}] if fail_nth else []
+    proj.cluster.update(add)
     proj.cluster.clear_log()
     args = ["cancel"] + (["--force"] if force else []) + list(patterns)
     code, out, err = proj.gwf(args, input=answer)
@@ -417,9 +447,21 @@ def compare(p, mline):
         if set(p.get("calls", [])) - QUERY_CMDS:
             bad.append(("C04", "a command on an invalid workflow issued scheduler commands %r" % sorted(set(p["calls"]) - QUERY_CMDS)))
         return bad
-    if p["code"] != 0 and not (kind in ("clean", "cancel") and p.get("prompted") and p.get("answer") != "y\n"):
-        bad.append(("C05" if kind in ("status", "dry") else {"run": "C02", "touch": "C16", "clean": "C15", "cancel": "C17"}[kind],
+    if p["code"] != 0 and not (kind in ("clean", "cancel") and p.get("prompted") and p.get("answer") != "y\n") \
+            and not (kind == "run" and p.get("rejected")):
+        bad.append(("C05" if kind in ("status", "dry") else {"run": "C02", "touch": "C16", "touchstatus": "C16", "clean": "C15", "cancel": "C17"}[kind],
                     "command failed (exit %s): %s" % (p["code"], p["err"][-200:])))
+        return bad
+    if kind == "touchstatus":
+        names = id2name(p["ids"])
+        exp = {}
+        for e in (m.get("rows", "").split(",") if m.get("rows") else []):
+            i, st = e.split(":")
+            exp[names[i]] = st
+        got = parse_status_table(p["out"])
+        if got != exp:
+            diff = {n: (got.get(n), exp.get(n)) for n in set(got) | set(exp) if got.get(n) != exp.get(n)}
+            bad.append(("C16", "status after touch differs (shown, model): %r (patterns %r)" % (diff, p["patterns"])))
         return bad
     if kind == "status":
         names = id2name(p["ids"])
@@ -472,7 +514,7 @@ def compare(p, mline):
         mfiles = unfiles(m.get("files", ""))
         if set(p["post_files"]) != set(mfiles):
             bad.append(("C16", "files after touch %r, model %r" % (sorted(set(p["post_files"]) ^ set(mfiles)), "")))
-        touched_m = {f for f, r in mfiles.items() if r > p["clock"]}
+        touched_m = {f for f, r in mfiles.items() if p["pre_ranks"].get(f) != r}
         touched_i = {f for f in p["post_files"] if p["post_files"][f] != p["pre_files"].get(f)}
         if touched_i != touched_m:
             bad.append(("C16", "touched files differ: implementation %r, model %r" % (sorted(touched_i), sorted(touched_m))))
@@ -484,6 +526,7 @@ def compare(p, mline):
                 bad.append(("C16", "touch created a non-empty file %s" % f))
         if p["hashes"] != unkv(m.get("hashes", "")):
             bad.append(("C18", "spec hashes after touch %r, model %r" % (p["hashes"], unkv(m.get("hashes", "")))))
+            bad.append(("C16", "spec hashes after touch %r, model %r" % (p["hashes"], unkv(m.get("hashes", "")))))
         if not (p["tracked_same"] and p["jobs_same"]):
             bad.append(("C16", "touch changed tracked jobs or the cluster"))
     elif kind == "clean":
@@ -505,6 +548,7 @@ def compare(p, mline):
                     bad.append(("C15", "clean modified %s" % f))
             if p["hashes"] != unkv(m.get("hashes", "")):
                 bad.append(("C15", "spec hashes after clean %r, model %r" % (p["hashes"], unkv(m.get("hashes", "")))))
+                bad.append(("C18", "spec hashes after clean %r, model %r" % (p["hashes"], unkv(m.get("hashes", "")))))
     elif kind == "cancel":
         declined = p["prompted"] and p.get("answer") != "y\n"
         if declined:
